@@ -412,3 +412,100 @@ Example C01_example_accepts :
   = (true, true, 7, 6, Some (true, true)).
 Proof. vm_compute. reflexivity. Qed.
 Print Assumptions C01_example_accepts.
+
+(* [ext-C01S] ---- the SGE variant of the driver (SD/PipelineSGE.v: cut_and_optimise with self.SGE == True) -----------
+   Model: Gamma as in Pipeline.v, SGE/Model.v's gaussian_elimination (the function tied by props/c13.py) on it, the
+   bipartite covers of Gamma_u and of Gamma with the revert test of _apply_bipartite_to_gamma_u, the virtual u / v nodes
+   of _create_combined_u_v_lists (copies included) and _reconnect_hyperedges on them; tied after every driver call by
+   props/c01s.py.
+   (a) A cut that reverts (`cut_uses_ge = false`: the cover of Gamma_u is not smaller than the cover of Gamma) IS the
+       BIPARTITE cut, for every tree, edge and diagram: C01_sge_cut_revert_is_bipartite; it preserves the denotation
+       under cut_pre (C01_cut_step_sound).
+   (b) One SGE cut preserves the denotation under the decidable per-step check `cut_check_sge`: cut_pre for a reverting
+       cut; for a cut that uses the elimination result the check is the comparison of the normal forms of the
+       denotation before and after the cut.
+       PARTIAL with respect to the planned `C01_sge_cut_step_sound` (precondition independent of the result, through
+       C13_exact_factorisation and C01_cut_regroup_sound): for cuts that use the elimination result the precondition
+       here evaluates the result, i.e. such cuts are certified per instance, not universally.
+   (c) The SGE driver is exact whenever the checks hold before every step of the run (`pipeline_sge_ok`, evaluated per
+       explored instance by props/c01s.py). *)
+From PTN Require Import SD.PipelineSGE SD.PipelineSGEProofs.
+
+Theorem C01_sge_cut_revert_is_bipartite : forall (t : rtree) (c : nat) (st st' : pst),
+  cut_uses_ge t c (p_sd st) = false -> cut_step_sge t c st = Some st' -> cut_step t c st = Some st'.
+Proof. exact cut_step_sge_revert. Qed.
+Print Assumptions C01_sge_cut_revert_is_bipartite.
+
+Theorem C01_sge_cut_step_sound_partial : forall (t : rtree) (c : nat) (st st' : pst), NoDup (ids t) ->
+  cut_check_sge t c st = true -> cut_step_sge t c st = Some st' ->
+  forall k : key, (coef (sd_denote t (p_sd st')) k == coef (sd_denote t (p_sd st)) k)%Q.
+Proof. exact cut_step_sge_checked_sound. Qed.
+Print Assumptions C01_sge_cut_step_sound_partial.
+
+Theorem C01_pipeline_sge_exact_checked_partial : forall (t : rtree) (H : list pterm) (d : sd), NoDup (ids t) ->
+  pipeline_sge_ok t H = true -> pipeline_sge t H = Some d ->
+  forall k : key, (coef (sd_denote t d) k == coef (ham_denote t H) k)%Q.
+Proof. exact pipeline_sge_exact_checked. Qed.
+Print Assumptions C01_pipeline_sge_exact_checked_partial.
+
+(* non-vacuity: 3-node chain, 6 terms, two symbols.  The coefficient matrix at the edge (0,1) contains a 2x2 block of
+   rank 1; the first cut USES the elimination result (flags), the second reverts; the checks hold along the run, the
+   result is well-formed and certified, and the bond on edge 1 is 2 where BIPARTITE needs 3 *)
+Example C01_example_pipeline_sge :
+  let t := RNode 0 [RNode 1 [RNode 2 []]] in
+  let f := fun (l : list (nat * nat)) (v : nat) => match lookup v l with Some x => x | None => 2 end in
+  let H : list pterm := [((-1 # 1)%Q, 0, f [(1, 22); (0, 11)]); ((-2 # 1)%Q, 0, f [(1, 22); (0, 21)]);
+                         ((3 # 2)%Q, 0, f [(1, 12); (0, 11)]); ((3 # 1)%Q, 0, f [(1, 12); (0, 21)]);
+                         ((5 # 1)%Q, 1, f [(2, 31)]); ((7 # 2)%Q, 2, f [(1, 12); (2, 31)])] in
+  (pipeline_sge_ok t H, pipeline_sge_ge_flags t H,
+   match pipeline_sge t H with Some d => Some (sd_wf t d, sd_check t H d, map (nverts_on d) [1; 2]) | None => None end,
+   match from_hamiltonian_bipartite t H with Some d => Some (map (nverts_on d) [1; 2]) | None => None end)
+  = (true, [true; false], Some (true, true, [2; 2]), Some [3; 2]).
+Proof. vm_compute. reflexivity. Qed.
+Print Assumptions C01_example_pipeline_sge.
+(* (d) First half of the planned universal argument: at EVERY cut of EVERY diagram with at least one hyperedge on either
+   side of the edge, the gaussian_elimination call of cut_and_optimise returns (no IndexError, the loops terminate),
+   Gamma_u is non-empty and not larger than Gamma, and Op_l * Gamma_u * Op_r = Gamma entry by entry as polynomials in
+   the coefficient symbols (C13_exact_factorisation instantiated at the matrix _setup_gamma_matrix builds; `ent_of` is
+   the bridge from Pipeline.v's coefficients to SGE/Model.v's entries).  What is NOT proved universally is the second
+   half: that _create_combined_u_v_lists / _reconnect_hyperedges regroup this factorisation without loss (see (b)). *)
+Theorem C01_sge_cut_factorisation : forall (hp : bool) (cs : list rtree) (c : nat) (us : list he) (classes : list vclass),
+  1 <= length us -> 1 <= length classes ->
+  let Gm := gamma hp cs c us classes in
+  exists (L : PTN.SGE.Model.qmat) (Gu : PTN.SGE.Model.mat) (R : PTN.SGE.Model.qmat) (m' n' : nat),
+    PTN.SGE.Model.gaussian_elimination (mat_of_gamma Gm) = Some (L, Gu, R) /\
+    m' <= length us /\ n' <= length classes /\ 1 <= m' /\ 1 <= n' /\
+    length Gu = m' /\ PTN.SGE.Model.ncols Gu = n' /\
+    forall i j x, i < length us -> j < length classes ->
+      PTN.SGE.Model.prod3 m' n' L Gu R i j x = PTN.SGE.Model.coef (ent_of (gentry Gm i j)) x.
+Proof. exact sge_cut_factorisation. Qed.
+Print Assumptions C01_sge_cut_factorisation.
+(* the known finding C01-sge-symbolic-regroup, located by the literal model (3-node star, 10 pairwise distinct terms
+   mixing "1" and one symbol; found by the harness, seed 2): the cut of edge (0,2) USES the elimination result and
+   PRESERVES the denotation (the diagram after it is still certified: 4th state of the trace), but it leaves two
+   hyperedges at node 0 with the same label, the same vertices and equal coefficients (two members of virtual nodes that
+   land on one vertex); the following cut of edge (0,1) -- a reverting, i.e. BIPARTITE cut -- puts them into one V class
+   on one cut vertex, its second assignment to Gamma[u][class] overwrites the first (cut_distinct = false, the mechanism
+   of C01-duplicate-terms on an INTERMEDIATE diagram), and the result is well-formed but refuted (coefficient 1/2
+   instead of 1); BIPARTITE is exact on the same input *)
+Example C01_example_sge_regroup_located :
+  let t := RNode 0 [RNode 2 []; RNode 1 []] in
+  let f := fun (l : list (nat * nat)) (v : nat) => match lookup v l with Some x => x | None => 2 end in
+  let H : list pterm :=
+    [(1%Q, 0, f [(0, 22)]); (1%Q, 0, f [(2, 32); (0, 22)]); ((1 # 2)%Q, 0, f [(1, 32); (0, 22)]);
+     ((-1 # 2)%Q, 1, f [(0, 22); (2, 32); (1, 32)]); (1%Q, 0, f [(0, 22); (1, 12)]); ((-1 # 2)%Q, 1, f [(2, 32); (0, 22); (1, 12)]);
+     ((-1 # 3)%Q, 1, f [(1, 32); (0, 32); (2, 12)]); ((1 # 3)%Q, 1, f [(1, 32); (0, 32); (2, 22)]);
+     ((-1 # 3)%Q, 1, f [(1, 32); (0, 12); (2, 12)]); ((1 # 3)%Q, 1, f [(1, 32); (0, 12); (2, 22)])] in
+  (pipeline_sge_checks t H, pipeline_sge_ge_flags t H,
+   map (fun o => match o with Some st => Some (sd_check t H (p_sd st)) | None => None end) (pipeline_sge_trace t H),
+   match nth 3 (pipeline_sge_trace t H) None with
+   | Some st => match classify false [RNode 2 []; RNode 1 []] 1 (hes_at 1 (hes (p_sd st))) (hes_at 0 (hes (p_sd st))) with
+                | Some cl => Some (cut_distinct false [RNode 2 []; RNode 1 []] 1 cl) | None => None end
+   | None => None end,
+   match pipeline_sge t H with Some d => Some (sd_wf t d, sd_check t H d, sd_refute t H d) | None => None end,
+   match from_hamiltonian_bipartite t H with Some d => Some (sd_check t H d) | None => None end)
+  = ([true; true; true; false], [true; false], [Some true; Some true; Some true; Some true; Some false],
+     Some false, Some (true, false, true), Some true).
+Proof. vm_compute. reflexivity. Qed.
+Print Assumptions C01_example_sge_regroup_located.
+(* [/ext-C01S] *)
